@@ -5,6 +5,7 @@ import (
 	"encoding/json"
 	"errors"
 	"fmt"
+	"math/bits"
 	"net/url"
 	"strings"
 	"time"
@@ -117,22 +118,22 @@ func (d *destination) unlock(now, end common.Timestamp, dry bool) (
 		full   = d.full(end)   // full time range left
 		period = d.period(now) // current vesting period
 		ending = now == end    // pool ending, should drain all
-
-		ratio = 1.0 // vesting ratio for the period
 	)
 	left, err := d.left() // tokens left
 	if err != nil {
 		return 0, err
 	}
 
-	// also, the ending protects against zero division error
+	// integer arithmetic: left * period / full, rounded down; the ending
+	// pays exactly what is left and protects against zero division
+	amount = left
 	if !ending {
-		ratio = float64(period) / float64(full)
-	}
-
-	amount, err = currency.MultFloat64(left, ratio)
-	if err != nil {
-		return 0, err
+		if period < 0 || period >= full {
+			return 0, currency.ErrNegativeValue
+		}
+		hi, lo := bits.Mul64(uint64(left), uint64(period))
+		q, _ := bits.Div64(hi, lo, uint64(full)) // period < full, so hi < full
+		amount = currency.Coin(q)
 	}
 
 	if !dry {
